@@ -80,6 +80,9 @@ def run_property(pid: str, world: World) -> Checker:
     ck = Checker(pid)
     try:
         ctx = Ctx(world)
+        from .restructured import restructured_functions
+
+        report.RESTRUCTURED = restructured_functions(ctx.raw_world)
         mod.run(ctx, ck)
         _common_rules(pid, ctx, ck)
     except Incomplete as exc:
